@@ -548,6 +548,102 @@ func cliCalc(c *cliEnv, r *rand.Rand, cw *CalcWriter, prop, label string, maxT i
 	case "C12":
 		gp.MinTips = 3
 		gp.PMulti = 0.45
+		if r.Intn(2) == 0 {
+			// sequences: gotree asr on a FASTA file; for unambiguous alignments gotree acr on every column as well
+			s := genSTree(r, &gp)
+			names := s.tipNames()
+			m := 1 + r.Intn(3)
+			ambiguous := r.Intn(2) == 0
+			codes := "ACGT"
+			if ambiguous {
+				codes = "ACGTACGTRYSWKMBDHVN"
+			}
+			seqs := map[string]string{}
+			var fa strings.Builder
+			for _, nm := range names {
+				b := make([]byte, m)
+				for j := range b {
+					b[j] = codes[r.Intn(len(codes))]
+				}
+				seqs[nm] = string(b)
+				fa.WriteString(">" + nm + "\n" + string(b) + "\n")
+			}
+			in := treesFile(c, "t.nw", []*STree{s})
+			af := c.file("aln.fa", fa.String())
+			al := parsAlgos[r.Intn(3)]
+			logf := filepath.Join(c.dir, "asr.log")
+			out, rc, hung := c.run("asr", "-i", in, "-a", af, "--algo", strings.ToLower(al.name), "--log", logf)
+			p := project(mustParse(s.text()), ProjOpt{})
+			sorted := p.tipNames()
+			sets := [][][]string{}
+			seqlist := [][]string{}
+			for _, nm := range sorted {
+				row := [][]string{}
+				for j := 0; j < m; j++ {
+					row = append(row, splitChars(iupac[seqs[nm][j]]))
+				}
+				sets = append(sets, row)
+				seqlist = append(seqlist, []string{nm, seqs[nm]})
+			}
+			ev := &CEvent{Kind: "ParsimonySeq", Prop: "C12", Case: label, Trees: []*PTree{p},
+				Args: map[string]interface{}{"algo": al.name, "names": sorted, "seqs": seqlist, "sets": sets, "nsites": m, "ambiguous": ambiguous, "cli": true}, Hang: hung}
+			if !hung && rc == 0 {
+				ts, err := parseNewickLines(out)
+				lb, _ := os.ReadFile(logf)
+				lf := strings.Fields(string(lb))
+				if err == nil && len(ts) == 1 && len(lf) >= 1+m {
+					po := project(ts[0], ProjOpt{})
+					st := [][][]string{}
+					for _, n := range po.nodes {
+						cm := n.Comments()
+						if len(cm) == 0 {
+							st = append(st, [][]string{})
+						} else {
+							st = append(st, parseAncSeq(cm[len(cm)-1]))
+						}
+					}
+					steps := []int{}
+					for j := 0; j < m; j++ {
+						v, _ := strconv.Atoi(lf[1+j])
+						steps = append(steps, v)
+					}
+					single := []map[string]interface{}{}
+					okAll := true
+					if !ambiguous {
+						for j := 0; j < m && okAll; j++ {
+							var sb strings.Builder
+							for _, nm := range sorted {
+								sb.WriteString(nm + "\t" + string(seqs[nm][j]) + "\n")
+							}
+							sf := c.file("col.txt", sb.String())
+							stf := filepath.Join(c.dir, "colsteps.txt")
+							o2, rc2, _ := c.run("acr", "-i", in, "--states", sf, "--algo", strings.ToLower(al.name), "--out-steps", stf)
+							t2, e2 := parseNewickLines(o2)
+							sb2, _ := os.ReadFile(stf)
+							f2 := strings.Fields(string(sb2))
+							if rc2 != 0 || e2 != nil || len(t2) != 1 || len(f2) != 2 {
+								okAll = false
+								break
+							}
+							ns, _ := strconv.Atoi(f2[1])
+							single = append(single, map[string]interface{}{"steps": ns, "states": acrStates(project(t2[0], ProjOpt{}))})
+						}
+					}
+					if okAll {
+						ev.Ok = true
+						ev.Res = map[string]interface{}{"steps": steps, "states": st, "single": single}
+					} else {
+						ev.Err = "acr on a column failed"
+					}
+				} else {
+					ev.Err = fmt.Sprintf("output: %v %q", err, string(lb))
+				}
+			} else {
+				ev.Err = fmt.Sprintf("rc=%d", rc)
+			}
+			cw.emit(ev)
+			return
+		}
 		s := genSTree(r, &gp)
 		names := s.tipNames()
 		k := 2 + r.Intn(3)
